@@ -343,6 +343,12 @@ def cross_ops() -> list[dict]:
         if k == "items":
             op["json_array"] = "items"
         out.append(op)
+    # two path variables that are NOT declared as parameters (outside the theorem's well-formedness condition; the
+    # model follows _ensure_path_variables_as_params, which adds them in template order)
+    out.append({"id": "xundecl", "tag": "alpha", "method": "get",
+                "path": [["lit", "/xu/"], ["var", "zeta"], ["lit", "/"], ["var", "alphaId"], ["lit", "/"], ["var", "id"]],
+                "params": [prm("id", "path", required=True), prm("q", "query")], "body": [], "body_required": False,
+                "undeclared": ["zeta", "alphaId"]})
     return out
 
 
@@ -366,6 +372,9 @@ def assignments(rng, op: dict, max_enum: int = 5, n_random: int = 12, cap: int |
         if (p["in"], p["name"]) not in seen:
             seen.add((p["in"], p["name"]))
             ps.append(p)
+    # path variables without a declared parameter: the generator adds a required `str` argument for each
+    for v in op.get("undeclared", []):
+        ps.append({"name": v, "in": "path", "required": True, "ty": "str", "array": False, "level": "op"})
     opt = [p for p in ps if not p["required"]]
     body_optional = bool(op["body"]) and not op["body_required"]
     nopt = len(opt) + (1 if body_optional else 0)
